@@ -251,8 +251,10 @@ func runOne(t *testing.T, check string, seed int64, i int, bubble bool, wdSec in
 			// synctest.Test panics in the caller when the bubble deadlocks; keep the record.
 			defer func() {
 				if r := recover(); r != nil {
-					pmsg = "synctest: " + fmt.Sprint(r)
-					pstack = string(debug.Stack())
+					if pmsg == "" { // keep an earlier panic of the case body: it is the cause
+						pmsg = "synctest: " + fmt.Sprint(r)
+						pstack = string(debug.Stack())
+					}
 				}
 			}()
 			synctest.Test(t, func(t *testing.T) {
